@@ -7,6 +7,7 @@ history = [revision, ...]; revision = {
    "form": "table" | "stream" | "hybrid",
    "pack": [objnums stored in object streams]  (ignored for form "table"), "nstm": 1..3 object streams,
    "eol": b"\n" | b"\r\n" | b"\r"        line ends of xref keyword / subsection headers / trailer lines,
+   "trailer_sep": what stands between the keyword `trailer` and its dictionary (default: eol; b" " and b"" are valid too),
    "entry_eol": b" \n" | b" \r" | b"\r\n"   20-byte entry terminator,
    "split": bool       split contiguous runs into extra subsections / index ranges,
    "pad_free": bool    cover min..max with one range, undefined numbers as free entries,
@@ -180,7 +181,7 @@ def write_history(history, header=b"%PDF-1.7\n%\xe2\xe3\xcf\xd3\n", tail=b"\n", 
             out += t
             spans.append((x, x + len(t)))
             trailer[b"Size"] = size
-            out += b"trailer" + eol + W.ser(trailer) + eol
+            out += b"trailer" + rev.get("trailer_sep", eol) + W.ser(trailer) + eol
             sections.append(set(offs))
         elif form == "stream":
             x = len(out)
@@ -200,7 +201,7 @@ def write_history(history, header=b"%PDF-1.7\n%\xe2\xe3\xcf\xd3\n", tail=b"\n", 
             spans.append((x, x + len(t)))
             trailer[b"Size"] = size
             trailer[b"XRefStm"] = xs_off
-            out += b"trailer" + eol + W.ser(trailer) + eol
+            out += b"trailer" + rev.get("trailer_sep", eol) + W.ser(trailer) + eol
             sections.append(set(offs) | set(comp))
         out += b"startxref" + eol + b"%d" % x + eol + b"%%EOF" + (tail if ri == len(history) - 1 else b"\n")
         prev = x
